@@ -3,8 +3,9 @@ CONSTANTS
   AllSiblings = FALSE
   EnterOnFocusIn = FALSE
   StaleTarget = FALSE
+  FastPath = FALSE
   Depth = 3
-  Shapes = {"A", "H"}
+  Shapes = {"A", "H", "P"}
 SPECIFICATION Spec
 INVARIANTS Conforms RouteSane ChainSane HoverClosed
 CHECK_DEADLOCK FALSE
